@@ -80,7 +80,7 @@ struct Reference {
 fn reference() -> &'static Reference {
     static R: OnceLock<Reference> = OnceLock::new();
     R.get_or_init(|| {
-        let work = PathBuf::from(format!("{}/build/xdg/C15-{}", crate::runner::VERIF, std::process::id()));
+        let work = PathBuf::from(format!("{}/build/xdg/C15-{}", crate::runner::verif_root(), std::process::id()));
         let _ = std::fs::remove_dir_all(&work);
         std::fs::create_dir_all(&work).unwrap();
         // query set: unambiguous typable phrases (exactly one constant carries all the words) + probes
